@@ -351,6 +351,55 @@ def w_hostvalues(case, opts):
     return {"res": out}
 
 
+# an exposed function stored where the ENGINE looks things up for its own purposes (global names of error constructors and other
+# built-ins, methods of built-in prototypes and namespaces) must not run unless ECMAScript itself would call a function stored there
+REBIND_GLOBALS = ["Error", "TypeError", "RangeError", "SyntaxError", "ReferenceError", "EvalError", "URIError", "Object", "Array", "String", "Number", "Boolean", "Function", "RegExp", "Date", "Math", "JSON",
+                  "parseInt", "parseFloat", "isNaN", "isFinite", "eval", "console", "undefined", "NaN", "Infinity", "Symbol", "Map", "Set", "globalThis", "toString", "valueOf", "constructor", "length",
+                  "prototype", "hasOwnProperty", "call", "apply", "bind", "Int8Array", "Uint8Array", "Float64Array", "ArrayBuffer", "escape", "log", "print"]
+REBIND_PROPS = ["Object.prototype.toString", "Object.prototype.valueOf", "Object.prototype.hasOwnProperty", "Object.prototype.constructor", "Array.prototype.join", "Array.prototype.push", "Array.prototype.toString",
+                "Array.prototype.slice", "Array.prototype.indexOf", "Array.prototype.concat", "Array.prototype.constructor", "String.prototype.indexOf", "String.prototype.toString", "String.prototype.valueOf",
+                "String.prototype.split", "String.prototype.replace", "Number.prototype.toString", "Number.prototype.valueOf", "Function.prototype.call", "Function.prototype.apply", "Function.prototype.bind",
+                "Function.prototype.toString", "RegExp.prototype.exec", "RegExp.prototype.test", "RegExp.prototype.toString", "Error.prototype.toString", "Error.prototype.name", "Error.prototype.message",
+                "TypeError.prototype.constructor", "Math.max", "Math.floor", "Math.abs", "JSON.stringify", "JSON.parse", "Object.keys", "Object.create", "Object.defineProperty", "Object.getPrototypeOf",
+                "Array.isArray", "String.fromCharCode", "Number.isNaN", "Date.now", "console.log", "Object.prototype.then", "Object.prototype.toJSON", "Object.prototype.length", "Array.prototype.length"]
+REBIND_TRIGGERS = ["null.x;", "undefinedVariable_q;", "new Array(-1);", "JSON.parse('{');", "(void 0)();", "'a'.repeat(-1);", "({}) instanceof 5;", "'x' in 5;", "new (function () { }.bind())();", "[].reduce(function () { });",
+                   "(5).toFixed(200);", "new RegExp('(');", "eval('1 +');", "x_undeclared = 1;", "null.y = 1;", "[1, 2].map(String);", "'' + {};", "'' + [1, [2]];", "+{};", "[3, 1, 2].sort();", "JSON.stringify({a: [1, {b: 2}]});",
+                   "JSON.parse('[1, {\"a\": 2}]');", "/a(b)?/.test('ab');", "'abc'.replace(/b/, 'x');", "'a,b'.split(',');", "for (var k in {a: 1}) { }", "for (var v of [1, 2]) { }", "Object.keys({a: 1});", "[1, 2].concat([3]).join();",
+                   "(function () { return arguments.length; })(1, 2);", "new Error('m').message;", "String(new TypeError('t'));", "try { throw new RangeError('r'); } catch (e) { e.name; }", "typeof nosuch;", "1 / 0;", "Math.max(1, 2);",
+                   "parseInt('12');", "new Uint8Array(2).length;", "var o = {get g() { return 1; }}; o.g;", "Number('12') + Number.MAX_VALUE;", "[] instanceof Array;", "({}).hasOwnProperty('a');", "Array.isArray([]);", "'abc'.indexOf('b');"]
+
+
+def rebind_programs():
+    body = " ".join("try { " + t + " } catch (e) { try { String(e); e instanceof Error; e.name; e.message; } catch (e2) { } }" for t in REBIND_TRIGGERS)
+    out = []
+    for g in REBIND_GLOBALS:
+        for form in ("%s = hostfn;", "var %s = hostfn;", "this.%s = hostfn;"):
+            out.append(("global:" + g + ":" + form.split(" ")[0], "try { " + (form % g) + " } catch (e) { }\n" + body))
+    for pth in REBIND_PROPS:
+        out.append(("prop:" + pth, "try { " + pth + " = hostfn; } catch (e) { }\n" + body))
+        base, name = pth.rsplit(".", 1)
+        out.append(("defprop:" + pth, "try { Object.defineProperty(" + base + ", '" + name + "', {get: function () { return hostfn; }, configurable: true}); } catch (e) { }\n" + body))
+    return out
+
+
+def w_rebind(case, opts):
+    from vf import engine as E
+    out = []
+    for src in case["progs"]:
+        ctx = E.new_context()
+        n = [0]
+
+        def hostfn(*args):
+            n[0] += 1
+            return 7
+        ctx.set("hostfn", hostfn)
+        ctx.set("HOSTCOUNT", lambda: n[0])
+        san = Sanitizer(E, ctx, [hostfn])
+        r = E.run_js(src + "\nHOSTCOUNT();", {"_vm_mons": [san.mon], "max_steps": 300000, "log": False}, ctx=ctx)
+        out.append({"o": r["out"], "calls": n[0], "bad": san.bad, "err": r.get("err") or r.get("abort")})
+    return {"res": out}
+
+
 NO_INVOKE_FORMS = [
     "typeof hostfn", "'x' in hostfn", "for (var k in hostfn) {}", "Object.keys(hostfn)", "JSON.stringify(hostfn)",
     "JSON.stringify({f: hostfn})", "({}) instanceof Object; hostfn instanceof Object", "Object.create(hostfn)", "hostfn.x",
@@ -542,10 +591,20 @@ def main(ctx):
         for si, (ident, src) in enumerate(skel.enumerate_skeletons(depth2=True, contexts=["forin-array", "array"])):
             if si % (7 if ctx.quick else 1) == ctx.seed % (7 if ctx.quick else 1):
                 progs.append(src)
+        # names that DO mean something on a receiver (ECMAScript's, and the engine's documented lineNumber/columnNumber/stack) are
+        # outside the fresh-name oracle, but what they evaluate to is a value a script holds: under the sanitizer like everything else
+        for rk, R in RECEIVERS.items():
+            for nme in sorted(meaningful.get(rk, set()) | ENGINE_DOCUMENTED):
+                for fk in ("read", "call", "write-read", "delete"):
+                    progs.append(FORMS[fk] % {"R": R, "N": json.dumps(nme)})
         rres = ep.map({"mod": "checks.C03", "fn": "w_probe"}, [{"progs": progs[i:i + 50], "log": True} for i in range(0, len(progs), 50)],
                       batch=1, timeout=600)
         hitems = [(vi, rt) for vi in range(len(HOST_VALUES)) for rt in HOST_ROUTES]
         hres = ep.map({"mod": "checks.C03", "fn": "w_hostvalues"}, [{"items": hitems[i:i + 40]} for i in range(0, len(hitems), 40)], batch=1, timeout=600)
+        rprogs = rebind_programs()
+        rbres = ep.map({"mod": "checks.C03", "fn": "w_rebind"}, [{"progs": [p[1] for p in rprogs[i:i + 20]]} for i in range(0, len(rprogs), 20)], batch=1, timeout=600)
+        NODE_HOST = "var HC_ = 0; var hostfn = function () { HC_++; return 7; }; var HOSTCOUNT = function () { return HC_; };\n"
+        rbref = np_.map({}, [{"kind": "exprs", "exprs": [NODE_HOST + p[1] + "\nHC_;"]} for p in rprogs], batch=10, timeout=120) if np_ else [None] * len(rprogs)
         # invocation log programs
         fixed = random.Random(31337)
         iprogs = [{"src": gen_invocation_prog(fixed if i % 2 else rng)} for i in range(400 if ctx.quick else 6000)]
@@ -653,6 +712,35 @@ def main(ctx):
             if e["o"] == "ok":
                 ctx.nontrivial(("hostval", vi, rt))
     ctx.cov["host_value_route_cells_judged"] = host_judged
+    # ---- exposed function stored where the engine looks things up for itself
+    flat = []
+    for r in rbres:
+        flat += (r["res"] if r and "res" in r else [None] * 20)
+    rebind_judged = 0
+    for (rid, src), e, nref in zip(rprogs, flat, rbref):
+        ctx.count()
+        if e is None:
+            ctx.violation(("rebind-worker-failed",), {"case": src[:300]})
+            continue
+        ref_calls = None
+        try:
+            ref_calls = int(dnum(nref["res"][0]["ret"]))
+        except Exception:   # noqa
+            pass
+        if e.get("bad"):
+            ctx.violation(("sanitizer", e["bad"][0][0].split(":")[0], "rebind", rid.split(":")[0]), {"case": src[:1500], "bad": e["bad"]})
+        if e["o"] == "hosterr" or (isinstance(e.get("err"), dict) and e["err"].get("kind") == "host"):
+            ctx.violation(("host-exception", "rebind", rid.split(":")[0]), {"case": src[:1500], "observed": str(e)[:400]})
+        if ref_calls is None:
+            continue
+        rebind_judged += 1
+        if e["calls"] > ref_calls:
+            ctx.violation(("hostfn-invoked-without-a-call", rid.split(":")[0], rid.split(":")[1]),
+                          {"case": src[:2500], "where_stored": rid, "engine_invocations": e["calls"], "reference_invocations_of_a_script_function_stored_there": ref_calls,
+                           "monitor": "invocation counter in the exposed function vs node running the same program with a script function"})
+        else:
+            ctx.nontrivial(("rebind", rid))
+    ctx.cov["rebind_programs_judged"] = rebind_judged
     # ---- invocation log checker
     ii = 0
     inv_total = 0
